@@ -1,6 +1,7 @@
 """Property-specific engines (beyond the common event correspondence + monitors)."""
 import json, os, re
 from engine_c19 import engine_C19
+from engine_c09 import engine_C09, engine_C05, engine_C11, engine_C13, engine_C15
 
 
 def run(pid, tier, seed, ctx):
